@@ -388,11 +388,49 @@ fn run_overlap(a: &Args) -> Report {
 /// Several consumers: a consume() that starts while another consumer is still inside its closure (holding the Drain)
 /// must not hand out the side that is being drained. No push runs during any consume, so the known push/drain overlap
 /// is not involved: every value pushed before must be yielded by exactly one drain.
+/// Several threads pushing as fast as they can, no drain running: with room for everything, the next drain yields every
+/// value once at rate 1; with less room, it reports capacity / pushed.
+fn push_storm(a: &Args, rep: &mut Report, r: &mut Rng) {
+    let rounds = a.budget(6, 200);
+    for _ in 0..rounds {
+        let nthreads = 2 + r.usize(6);
+        let per = 5_000 + r.usize(20_000);
+        let total = nthreads * per;
+        let roomy = r.chance(1, 2);
+        let cap = if roomy { total } else { 1000 };
+        let res = Arc::new(AtomicSamplingReservoir::new(cap));
+        let start = Arc::new(std::sync::Barrier::new(nthreads));
+        let hs: Vec<_> = (0..nthreads)
+            .map(|t| {
+                let (res, start) = (res.clone(), start.clone());
+                std::thread::spawn(move || {
+                    start.wait();
+                    for i in 0..per {
+                        res.push((t * per + i) as f64);
+                    }
+                })
+            })
+            .collect();
+        for h in hs {
+            let _ = h.join();
+        }
+        let (got, rate, _) = drain_all(&res);
+        rep.case(mix(total as u64, cap as u64), true);
+        let distinct: HashSet<u64> = got.iter().map(|v| v.to_bits()).collect();
+        let exp_len = cap.min(total);
+        let exp_rate = exp_len as f64 / total as f64;
+        if got.len() != exp_len || distinct.len() != got.len() || (rate - exp_rate).abs() > 1e-12 {
+            rep.violation("C16:concurrent-pushes-miscounted", jo! {"what" => "after several threads pushed concurrently (no drain running) the drain does not yield min(capacity, pushed) distinct values at rate yielded / pushed", "threads" => nthreads, "pushed" => total, "capacity" => cap, "yielded" => got.len(), "distinct" => distinct.len(), "sample_rate" => rate, "expected_rate" => exp_rate});
+        }
+    }
+}
+
 fn run_consumers(a: &Args) -> Report {
     use std::sync::mpsc;
     let mut rep = Report::new("C16", &a.leg, a.seed);
     let mut r = Rng::new(a.shard_seed());
     push_inside_closure(a, &mut rep, &mut r);
+    push_storm(a, &mut rep, &mut r);
     let trials = a.budget(60, 3000);
     for _ in 0..trials {
         let n = 1 + r.usize(12);
